@@ -154,6 +154,18 @@ ADD5 = {
  "C16": ("reflect.Kind dataflow at every Convert; nil-safe promoted field walks", "Convert cannot panic for any script operand; fields promoted through embedded pointers are reached with FieldByIndexErr."),
  "C18": ("path simulation of every recover handler for the interrupt marker type", "A panic of the function received on Otto.Interrupt is wrapped in a marker at the poll sites, re-panicked unchanged by the try statement's handler and unwrapped by the handlers directly under the exported API."),
 }
+ADD6 = {
+ "C06": ("exhaustive evaluation of parseInt's text handling over a quotient of strings", "Which digit run, radix and sign reach the numeric conversion agrees with 15.1.2.2 for every string up to length 3 over the character classes the algorithm distinguishes."),
+ "C08": ("exhaustive evaluation of the index helpers and of the probe sequence of indexOf / lastIndexOf", "Relative-index clamps and scan bounds agree with 15.4.4.10-15 on a domain that realises every ordering of argument, 0 and length."),
+ "C09": ("exhaustive evaluation of the index helpers", "slice / substring / substr positions agree with 15.5.4.13, 15.5.4.15 and B.2.3 on the same domain."),
+ "C10": ("exhaustive evaluation of the exec helper", "Which suffix is searched, every write of lastIndex and the reported offsets agree with 15.10.6.2 for 30 combinations of lastIndex, global and matcher outcome."),
+ "C12": ("two-digit-year window on ToInteger; revive of invalid dates by setFullYear; int64-nanosecond census", "The 0..99 window is tested on an integral value; setFullYear restarts from +0; no UnixNano on script-chosen times."),
+ "C14": ("abstract evaluation of the error constructor helper; Date.prototype payload", "Error instances get no own name; Date.prototype is the invalid date."),
+}
+for _pid, (_t, _d) in ADD6.items():
+    t0, d0, n0 = P[_pid]
+    P[_pid] = (t0 + "; " + _t, d0 + " Also: " + _d, n0)
+
 for _pid, (_t, _d) in ADD5.items():
     t0, d0, n0 = P[_pid]
     P[_pid] = (t0 + "; " + _t, d0 + " Also: " + _d, n0)
